@@ -60,6 +60,10 @@ func (c03) Plan(tier string, seed int64) []core.Scenario {
 	for i := 0; i < 2; i++ {
 		out = append(out, core.Scenario{Kind: "noping-blackhole", Seed: seed*7841 + int64(i), N: map[string]int{"inflight": 1 + i, "noise": i}, S: map[string]string{}})
 	}
+	// calls whose context is already done, or ends within milliseconds, issued while the link is down
+	for i := 0; i < 3; i++ {
+		out = append(out, core.Scenario{Kind: "done-ctx-outage", Seed: seed*7817 + int64(i), N: map[string]int{"fk": i % 2, "noise": i % 3, "n": 12}, S: map[string]string{}})
+	}
 	// the connection cut at internal steps of the library (hook points) instead of at frames on the wire
 	out = append(out, planLossAt(tier, seed)...)
 	// calls issued after the connection loop has ended: no-reconnect loss, closer, client context cancelled
@@ -89,6 +93,8 @@ func (c03) Run(sc core.Scenario) core.Result {
 		runStalledWrite(sc, r3)
 	case "lossat":
 		runLossAt(sc, r3)
+	case "done-ctx-outage":
+		runDoneCtxOutage(sc, r3)
 	case "noping-blackhole":
 		runNoPingBlackhole(sc, r3)
 	case "healing-stall":
@@ -976,4 +982,76 @@ func runNoteThenCancel04(sc core.Scenario, r *core.R) {
 	r.Obs("notifications", int64(sent))
 	r.Obs("notifications_lost", int64(lost))
 	r.Sample(map[string]interface{}{"scenario": "notification whose context is released right after the call returned", "transport": tr, "sent": sent, "executed_once": sent - lost - multi})
+}
+
+// runDoneCtxOutage: the link goes down and redials are refused for a while; meanwhile calls are made with
+// contexts that are already cancelled or expire within a few milliseconds, next to ordinary calls. Every
+// call returns, the client heals once the peer is reachable again, later calls work and the closer returns.
+func runDoneCtxOutage(sc core.Scenario, r *core.R) {
+	kind := []string{wsproxy.RST, wsproxy.FIN}[sc.I("fk")]
+	env := NewEnv(EnvOpt{})
+	defer env.Shutdown()
+	defer noisePolicy(sc).Install()()
+	cl, err := env.NewClient(ClientOpt{Opts: []jsonrpc.Option{jsonrpc.WithReconnectBackoff(5*time.Millisecond, 20*time.Millisecond)}})
+	if err != nil {
+		r.Inconclusive("client: %v", err)
+		return
+	}
+	bg := context.Background()
+	w := Tok("w")
+	cl.Echo(bg, w, "")
+	env.Px.SetRefuse(true)
+	env.Px.KillAll(kind)
+	time.Sleep(10 * time.Millisecond)
+	var outs []*Outcome
+	for i := 0; i < sc.I("n"); i++ {
+		t := Tok("d")
+		var ctx context.Context
+		var cancel context.CancelFunc
+		switch i % 3 {
+		case 0:
+			ctx, cancel = context.WithCancel(bg)
+			cancel()
+		case 1:
+			ctx, cancel = context.WithTimeout(bg, time.Duration(1+i)*time.Millisecond)
+		default:
+			ctx, cancel = context.WithCancel(bg)
+		}
+		defer cancel()
+		outs = append(outs, Go(t, func() (string, error) { return cl.Echo(ctx, t, "") }))
+		time.Sleep(2 * time.Millisecond)
+	}
+	time.Sleep(150 * time.Millisecond)
+	env.Px.SetRefuse(false)
+	where := fmt.Sprintf("%s, redials refused for 150 ms, %d calls with done / expiring / live contexts issued meanwhile", kind, len(outs))
+	healthy := probeUntilHealthy(cl, r, 2*core.Grace)
+	if !healthy {
+		r.Violate("lost-call:probe", "%s: the client did not become usable again; events: %s", where, core.Log.Tail(30))
+	}
+	blocked := 0
+	for _, o := range outs {
+		if blocked >= 2 && !o.Returned() {
+			continue
+		}
+		if !o.Wait(core.Grace) {
+			blocked++
+			r.Violate("lost-call:done-ctx", "%s: call %s never returned; events: %s", where, o.Tok, core.Log.Tail(30))
+			continue
+		}
+		if o.Err == nil && o.Val != svc.Reply(o.Tok) {
+			r.Violate("foreign-result", "%s: call %s returned %q", where, o.Tok, core.Trunc(o.Val, 80))
+		}
+		if n := env.Svc.Enters(o.Tok); n > 1 {
+			r.Violate("executed-twice", "%s: the handler of call %s ran %d times", where, o.Tok, n)
+		}
+	}
+	done := make(chan struct{})
+	go func() { cl.Close(); close(done) }()
+	if !core.WaitCh(done, core.Grace) {
+		r.Violate("lost-call:closer", "%s: the closer did not return", where)
+	}
+	r.Key(fmt.Sprintf("done-ctx-outage %s", kind), true)
+	r.Obs("calls", int64(len(outs)))
+	r.Sig(core.Log.Signature())
+	r.Sample(map[string]interface{}{"scenario": "calls with done or expiring contexts during an outage", "kind": kind, "calls": len(outs)})
 }
